@@ -19,6 +19,21 @@ IDP_SSO = {'redirect': env.IDP1_SSO, 'post': env.IDP1_SSO + '/post'}
 IDP_SLO = {'redirect': env.IDP1_SLO, 'post': env.IDP1_SLO + '/post', 'soap': env.IDP1_SLO + '/soap'}
 SP_SLO = {'redirect': env.SP_SLO, 'post': env.SP_SLO + '/post', 'soap': env.SP_SLO + '/soap'}
 AA_ATTR = 'https://idp1.verif.example/attr'
+# the other SOAP queries: parse function, endpoint key, location, element name, schema-valid body
+QUERIES = {
+    'authnquery': ('parse_authn_query', 'authn_query_service', 'https://idp1.verif.example/authnquery', 'AuthnQuery', '',
+                   '<saml:Subject><saml:NameID>subject-1</saml:NameID></saml:Subject>'),
+    'authzquery': ('parse_authz_decision_query', 'authz_service', 'https://idp1.verif.example/authz', 'AuthzDecisionQuery',
+                   ' Resource="urn:verif:resource"',
+                   '<saml:Subject><saml:NameID>subject-1</saml:NameID></saml:Subject>'
+                   '<saml:Action Namespace="urn:oasis:names:tc:SAML:1.0:action:rwedc">Read</saml:Action>'),
+    'assertionid': ('parse_assertion_id_request', 'assertion_id_request_service', 'https://idp1.verif.example/aidr', 'AssertionIDRequest', '',
+                    '<saml:AssertionIDRef>_assertion1</saml:AssertionIDRef>'),
+    'nameidmapping': ('parse_name_id_mapping_request', 'name_id_mapping_service', 'https://idp1.verif.example/nim', 'NameIDMappingRequest', '',
+                      '<saml:NameID>subject-1</saml:NameID><samlp:NameIDPolicy Format="urn:oasis:names:tc:SAML:2.0:nameid-format:persistent"/>'),
+    'managenameid': ('parse_manage_name_id_request', 'manage_name_id_service', 'https://idp1.verif.example/mni', 'ManageNameIDRequest', '',
+                     '<saml:NameID>subject-1</saml:NameID><samlp:Terminate/>'),
+}
 EVIL = 'https://evil.example/endpoint'
 _RCV = {}
 
@@ -33,6 +48,11 @@ def receiver(rtype, endpoint, want, issuer_key='known'):
     if rtype in ('authn', 'logout_idp'):
         eps = {'single_sign_on_service': [(IDP_SSO['redirect'], B['redirect'])] + ([] if only else [(IDP_SSO['post'], B['post'])]),
                'single_logout_service': [(IDP_SLO['redirect'], B['redirect'])] + ([] if only else [(IDP_SLO['post'], B['post']), (IDP_SLO['soap'], B['soap'])])}
+        r = env.make_idp(env.idp_config(metadata_xml=spmd, endpoints=eps, want_authn_requests_signed=want))
+    elif rtype in QUERIES:
+        eps = {'single_sign_on_service': [(IDP_SSO['redirect'], B['redirect'])]}
+        for _, service, url, _, _, _ in QUERIES.values():
+            eps[service] = [(url, B['soap'])]
         r = env.make_idp(env.idp_config(metadata_xml=spmd, endpoints=eps, want_authn_requests_signed=want))
     elif rtype == 'attrquery':
         # an entity that is IdP and attribute authority; the option is read from the IdP part
@@ -49,6 +69,8 @@ def receiver(rtype, endpoint, want, issuer_key='known'):
 
 
 def own_urls(rtype):
+    if rtype in QUERIES:
+        return {'soap': QUERIES[rtype][2]}
     return {'authn': IDP_SSO, 'logout_idp': IDP_SLO, 'logout_sp': SP_SLO, 'attrquery': {'soap': AA_ATTR}}[rtype]
 
 
@@ -65,12 +87,18 @@ def request_xml(rtype, rid, destination, issue_instant, sig='', marker='genuine'
         return ('<samlp:LogoutRequest xmlns:samlp="%s" xmlns:saml="%s" ID="%s" Version="2.0"%s%s Reason="%s">'
                 '<saml:Issuer>%s</saml:Issuer>%s%s<saml:NameID>subject-1</saml:NameID></samlp:LogoutRequest>'
                 % (sb.NS_SAMLP, sb.NS_SAML, rid, ii, dest, marker, issuer, sig, inner))
+    if rtype in QUERIES:
+        _, _, _, tag, attrs, body = QUERIES[rtype]
+        return ('<samlp:%s xmlns:samlp="%s" xmlns:saml="%s" ID="%s" Version="2.0"%s%s Consent="urn:%s"%s>'
+                '<saml:Issuer>%s</saml:Issuer>%s%s%s</samlp:%s>'
+                % (tag, sb.NS_SAMLP, sb.NS_SAML, rid, ii, dest, marker, attrs, issuer, sig, inner, body, tag))
     return ('<samlp:AttributeQuery xmlns:samlp="%s" xmlns:saml="%s" ID="%s" Version="2.0"%s%s Consent="urn:%s">'
             '<saml:Issuer>%s</saml:Issuer>%s%s<saml:Subject><saml:NameID>subject-1</saml:NameID></saml:Subject>'
             '</samlp:AttributeQuery>' % (sb.NS_SAMLP, sb.NS_SAML, rid, ii, dest, marker, issuer, sig, inner))
 
 
 TAG = {'authn': 'AuthnRequest', 'logout_idp': 'LogoutRequest', 'logout_sp': 'LogoutRequest', 'attrquery': 'AttributeQuery'}
+TAG.update((k, v[3]) for k, v in QUERIES.items())
 
 
 def build(scn):
@@ -139,6 +167,8 @@ def replay(case):
             res = rcv.parse_authn_request(enc, B[scn['binding']])
         elif scn['rtype'] == 'attrquery':
             res = rcv.parse_attribute_query(enc, B[scn['binding']])
+        elif scn['rtype'] in QUERIES:
+            res = getattr(rcv, QUERIES[scn['rtype']][0])(enc, B[scn['binding']])
         else:
             res = rcv.parse_logout_request(enc, B[scn['binding']])
         handed = res is not None and getattr(res, 'message', None) is not None
@@ -186,7 +216,7 @@ def main():
     if handed == 0 and not chk.violations:
         raise fw.Machinery('no request was handed over: templates broken')
     chk.cov['exhaustive'] = True
-    chk.cov['rule'] = ('all 680 scenarios of IdPRequest.tla: request type (AuthnRequest, LogoutRequest to IdP and to SP, AttributeQuery) x '
+    chk.cov['rule'] = ('all scenarios of IdPRequest.tla: request type (AuthnRequest, LogoutRequest to IdP and to SP, AttributeQuery, AuthnQuery, AuthzDecisionQuery, AssertionIDRequest, NameIDMappingRequest, ManageNameIDRequest) x '
                       'binding x signature (none, valid, invalid, wrapped) x want_authn_requests_signed x twelve mutations x endpoint '
                       'configured for the arrival binding or not')
     chk.assumptions = list(fw.TOOL_ASSUMPTIONS)
